@@ -5,9 +5,18 @@
 // real callers do (Prepare / nested Snapshot+RevertToSnapshot / Finalize / IntermediateRoot /
 // Commit+reopen), the deep dump D(s) of DESIGN.md §4 C12 "Oracle A", and the two oracles:
 //
-//	(revert) D after RevertToSnapshot(id) == D captured at Snapshot(id)
-//	(shadow) the final D of the history == the final D of the same history with every reverted
-//	         span (Snapshot … RevertToSnapshot) deleted, executed on a fresh StateDB
+//	(revert) D after RevertToSnapshot(id) == D captured at Snapshot(id), D read through the
+//	         exported getters of the state itself
+//	(shadow) the commitment (Finalize + IntermediateRoot + Commit + re-read at the new root) of
+//	         the history == the commitment of the same history with every reverted span
+//	         (Snapshot … RevertToSnapshot) deleted; both executed unobserved on fresh StateDBs
+//
+// DESIGN.md asks for "IntermediateRoot of a Copy()" inside D. Copy() of a state in the middle of
+// a transaction is outside the documented contract ("we only ever copy state between
+// transactions"): the copy has an empty journal, so its Finalize neither deletes suicided nor
+// empty objects (and can even panic on a negative size counter). The commitment is therefore
+// taken the way the block processor takes it - destructively at the end of a replay - which is
+// what the shadow oracle does, for every enumerated history / every revert point.
 //
 // API contract followed by the generators (read off core/vm/evm.go, core/state_transition.go,
 // core/state_processor.go, core/worker.go):
@@ -16,10 +25,17 @@
 //   - Prepare (new access list + transient storage) only happens between transactions, i.e. with
 //     no live snapshot;
 //   - SubBalance only after a CanTransfer-style balance check, SubRefund only up to the counter;
-//   - CreateAccount only on an address without nonce and code (evm.Call creates missing accounts,
-//     evm.create refuses a collision);
+//   - CreateAccount is never called alone: evm.Call creates a missing account only when value > 0
+//     or the target is a precompile and then transfers the value (AddBalance, which "touches" an
+//     empty account when the value is 0); evm.create refuses an address with nonce or code,
+//     creates, sets nonce 1 and transfers the value. "create" ops are these two composites;
+//   - R = 0x00…03 is the RIPEMD precompile of zone 0-0 (and the address of the historic "touch"
+//     exception in stateObject.touch): it can be called/funded/listed but never has code, nonce
+//     or storage of its own, so only create(call path), addbal and aladdr name it;
 //   - AddSlotToAccessList only after AddAddressToAccessList for the address (PrepareAccessList);
-//   - deleteEmptyObjects is always true (every caller in the repository passes true).
+//   - deleteEmptyObjects is always true (every caller in the repository passes true);
+//   - IntermediateRoot is only taken at the end of a block (ValidateState / Finalize of the header
+//     chain); the StateDB is then committed and re-opened at the new root, never mutated again.
 package c12
 
 import (
@@ -60,6 +76,8 @@ func (c12aLocDB) Location() common.Location { return c12aLoc }
 const (
 	c12aNAddr = 3 // A, B and R (the RIPEMD "touch" special case 0x…03); the enumeration uses A, B
 	c12aNSlot = 2
+
+	c12aRipemd = 2 // index of R
 )
 
 var (
@@ -125,7 +143,7 @@ func c12aGetEnv(t fataler) *c12aEnv {
 	if err != nil || s.Error() != nil {
 		t.Fatalf("HARNESS: commit of the rich pre-state: %v / %v", err, s.Error())
 	}
-	e.richRoot, e.richSize = root, new(big.Int).Set(s.GetQuaiTrieSize())
+	e.richRoot, e.richSize = root, big.NewInt(2) // two accounts; asserted below through a re-read
 	chk, err := state.New(root, types.EmptyRootHash, e.richSize, e.db, e.db, nil, c12aLoc, logger)
 	if err != nil {
 		t.Fatalf("HARNESS: reopen rich pre-state: %v", err)
@@ -184,7 +202,9 @@ type op struct {
 func (o op) String() string {
 	n := opKindName[o.k]
 	switch o.k {
-	case opCreate, opSuicide, opALAddr:
+	case opCreate:
+		return fmt.Sprintf("%s %s %s value=%d", n, c12aAddrName[o.a], [2]string{"via-call", "via-create"}[o.s], o.v)
+	case opSuicide, opALAddr:
 		return n + " " + c12aAddrName[o.a]
 	case opAddBal, opSubBal, opSetBal, opSetNonce, opSetCode:
 		return fmt.Sprintf("%s %s %d", n, c12aAddrName[o.a], o.v)
@@ -208,8 +228,14 @@ func opsStrings(seq []op) []string {
 	return out
 }
 
-// structOK: the part of the caller contract that depends only on the number of live snapshots.
-func structOK(o op, live, maxDepth int) bool {
+// structOK: the part of the caller contract that depends only on the number of live snapshots
+// and on whether IntermediateRoot has been taken on this StateDB (rooted): every caller in the
+// repository takes the root at the very end of a block and then only commits / discards the
+// StateDB, so after "iroot" only another root or commit+reopen may follow.
+func structOK(o op, live int, rooted bool, maxDepth int) bool {
+	if rooted {
+		return o.k == opIRoot || o.k == opCommitReopen
+	}
 	switch o.k {
 	case opSnapshot:
 		return live < maxDepth
@@ -219,6 +245,16 @@ func structOK(o op, live, maxDepth int) bool {
 		return live == 0
 	}
 	return true
+}
+
+func nextRooted(o op, rooted bool) bool {
+	switch o.k {
+	case opIRoot:
+		return true
+	case opCommitReopen:
+		return false
+	}
+	return rooted
 }
 
 func nextLive(o op, live int) int {
@@ -293,30 +329,41 @@ type dumpD struct {
 	TrieSize  string
 }
 
-type fullDump struct {
-	HasDirect    bool
-	Direct       dumpD // getters on the state itself
-	Copy         dumpD // getters on a Copy()
-	CopyRoot     common.Hash
-	CopyTrieSize string
-	CopyErr      string
+// commitD is what a caller obtains by ending the transaction and the block at this point:
+// Finalize(true), IntermediateRoot(true), Commit(true), and the state re-read from the new root.
+type commitD struct {
+	Root, CommitRoot common.Hash
+	TrieSize         string
+	After            dumpD // getters after Finalize + IntermediateRoot on the state itself
+	Reopened         dumpD // getters on a fresh StateDB opened at the committed root
+	Err              string
 }
 
 func readDump(s *state.StateDB, nAddr int, thashes []common.Hash) (d dumpD) {
 	for i := 0; i < nAddr; i++ {
 		a := c12aAddr[i]
 		ad := &d.Acct[i]
-		ad.Exists, ad.Empty, ad.Suicided = s.Exist(a), s.Empty(a), s.HasSuicided(a)
+		for j := 0; j < c12aNSlot; j++ {
+			d.Transient[i][j] = s.GetTransientState(a, c12aSlot[j])
+			_, d.ALSlot[i][j] = s.SlotInAccessList(a.Bytes20(), c12aSlot[j])
+		}
+		d.ALAddr[i] = s.AddressInAccessList(a.Bytes20())
+		ad.Exists = s.Exist(a)
+		if !ad.Exists {
+			// every account getter answers its zero value for a missing object (and would cost a
+			// trie lookup each); record the canonical "missing" row
+			ad.Empty, ad.Balance, ad.Size = true, "0", "0"
+			continue
+		}
+		ad.Empty, ad.Suicided = s.Empty(a), s.HasSuicided(a)
 		ad.Balance, ad.Size, ad.Nonce = s.GetBalance(a).String(), s.GetSize(a).String(), s.GetNonce(a)
 		ad.CodeHash = s.GetCodeHash(a)
 		ad.Code = string(s.GetCode(a))
 		for j := 0; j < c12aNSlot; j++ {
 			ad.State[j] = s.GetState(a, c12aSlot[j])
 			ad.Committed[j] = s.GetCommittedState(a, c12aSlot[j])
-			d.Transient[i][j] = s.GetTransientState(a, c12aSlot[j])
-			_, d.ALSlot[i][j] = s.SlotInAccessList(a.Bytes20(), c12aSlot[j])
 		}
-		d.ALAddr[i] = s.AddressInAccessList(a.Bytes20())
+		continue
 	}
 	d.Refund = s.GetRefund()
 	var sb strings.Builder
@@ -339,19 +386,38 @@ func readDump(s *state.StateDB, nAddr int, thashes []common.Hash) (d dumpD) {
 	return d
 }
 
-func takeDump(s *state.StateDB, nAddr int, thashes []common.Hash, direct bool) *fullDump {
-	f := &fullDump{HasDirect: direct}
-	if direct {
-		f.Direct = readDump(s, nAddr, thashes)
+// takeCommit ends the history here the way the block processor does (destructive).
+func takeCommit(env *c12aEnv, s *state.StateDB, nAddr int, thashes []common.Hash, persist bool) *commitD {
+	c := &commitD{}
+	s.Finalize(true)
+	c.Root = s.IntermediateRoot(true)
+	size := new(big.Int).Set(s.GetQuaiTrieSize()) // the value the header records (QuaiStateSize)
+	c.TrieSize = size.String()
+	c.After = readDump(s, nAddr, thashes)
+	if !persist {
+		if e := s.Error(); e != nil {
+			c.Err = "dberr: " + e.Error()
+		}
+		return c
 	}
-	cp := s.Copy()
-	f.Copy = readDump(cp, nAddr, thashes)
-	f.CopyRoot = cp.IntermediateRoot(true)
-	f.CopyTrieSize = cp.GetQuaiTrieSize().String()
-	if err := cp.Error(); err != nil {
-		f.CopyErr = err.Error()
+	root, err := s.Commit(true)
+	c.CommitRoot = root
+	if err != nil {
+		c.Err = "commit: " + err.Error()
+		return c
 	}
-	return f
+	if e := s.Error(); e != nil {
+		c.Err = "dberr: " + e.Error()
+	}
+	// the next block opens the state with the size recorded in the header, i.e. the one read
+	// right after IntermediateRoot, not whatever the counter is after Commit
+	ns, err := state.New(root, types.EmptyRootHash, size, env.db, env.db, nil, c12aLoc, env.logger)
+	if err != nil {
+		c.Err += " reopen: " + err.Error()
+		return c
+	}
+	c.Reopened = readDump(ns, nAddr, nil)
+	return c
 }
 
 type fieldDiff struct{ kind, name, before, after string }
@@ -415,44 +481,34 @@ func diffDumpD(prefix string, nAddr int, a, b *dumpD, out *[]fieldDiff) {
 	}
 }
 
-// diffFull lists the differing fields, most specific first (the root differs whenever anything
+// diffCommit lists the differing fields, most specific first (the root differs whenever anything
 // committed differs, so it comes last).
-func diffFull(nAddr int, a, b *fullDump) []fieldDiff {
+func diffCommit(nAddr int, a, b *commitD) []fieldDiff {
 	var out []fieldDiff
-	if a.HasDirect && b.HasDirect {
-		diffDumpD("", nAddr, &a.Direct, &b.Direct, &out)
+	diffDumpD("final.", nAddr, &a.After, &b.After, &out)
+	diffDumpD("reopened.", nAddr, &a.Reopened, &b.Reopened, &out)
+	if a.TrieSize != b.TrieSize {
+		out = append(out, fieldDiff{"final.triesize", "quaiTrieSize after IntermediateRoot", a.TrieSize, b.TrieSize})
 	}
-	diffDumpD("copy.", nAddr, &a.Copy, &b.Copy, &out)
-	if a.CopyTrieSize != b.CopyTrieSize {
-		out = append(out, fieldDiff{"copy.triesize-after-root", "copy.quaiTrieSize after IntermediateRoot", a.CopyTrieSize, b.CopyTrieSize})
+	if a.Err != b.Err {
+		out = append(out, fieldDiff{"final.dberr", "Error()/Commit error", a.Err, b.Err})
 	}
-	if a.CopyErr != b.CopyErr {
-		out = append(out, fieldDiff{"copy.dberr", "copy.Error()", a.CopyErr, b.CopyErr})
+	if a.Root != b.Root {
+		out = append(out, fieldDiff{"final.root", "IntermediateRoot(true)", a.Root.Hex(), b.Root.Hex()})
 	}
-	if a.CopyRoot != b.CopyRoot {
-		out = append(out, fieldDiff{"copy.root", "Copy().IntermediateRoot(true)", a.CopyRoot.Hex(), b.CopyRoot.Hex()})
+	if a.CommitRoot != b.CommitRoot {
+		out = append(out, fieldDiff{"final.commitroot", "Commit(true) root", a.CommitRoot.Hex(), b.CommitRoot.Hex()})
 	}
 	return out
 }
 
-func sameFull(a, b *fullDump) bool {
-	if a.HasDirect && b.HasDirect && a.Direct != b.Direct {
-		return false
-	}
-	return a.Copy == b.Copy && a.CopyRoot == b.CopyRoot && a.CopyTrieSize == b.CopyTrieSize && a.CopyErr == b.CopyErr
+func diffDirect(nAddr int, a, b *dumpD) []fieldDiff {
+	var out []fieldDiff
+	diffDumpD("", nAddr, a, b, &out)
+	return out
 }
 
 // ---- runner -----------------------------------------------------------------------------------
-
-type obsMode int
-
-const (
-	obsFull obsMode = iota // direct getters + Copy at every Snapshot / after every revert
-	obsCopy                // only a Copy is read at Snapshot / after revert (the state's own caches stay cold)
-	obsNone                // no observation before the end: only the shadow oracle applies
-)
-
-var obsModeName = []string{"full", "copy", "none"}
 
 type initState struct {
 	name   string
@@ -471,7 +527,7 @@ var c12aInits = []initState{
 type snapRec struct {
 	id     int
 	at     int
-	before *fullDump
+	before *dumpD
 	// poisoned: a Suicide of an account with a non-zero storage-size counter was executed while
 	// this snapshot was live (known finding fpSuicideSize)
 	poisoned bool
@@ -486,7 +542,7 @@ type runner struct {
 	env     *c12aEnv
 	s       *state.StateDB
 	nAddr   int
-	mode    obsMode
+	observe bool // take D at every Snapshot and compare after every RevertToSnapshot
 	live    []snapRec
 	txn     int
 	thashes []common.Hash
@@ -497,7 +553,7 @@ type runner struct {
 	excluded  bool
 }
 
-func newRunner(env *c12aEnv, ini *initState, nAddr int, mode obsMode) (*runner, error) {
+func newRunner(env *c12aEnv, ini *initState, nAddr int, observe bool) (*runner, error) {
 	root, size := types.EmptyRootHash, big.NewInt(0)
 	if ini.rich {
 		root, size = env.richRoot, new(big.Int).Set(env.richSize)
@@ -506,7 +562,7 @@ func newRunner(env *c12aEnv, ini *initState, nAddr int, mode obsMode) (*runner, 
 	if err != nil {
 		return nil, err
 	}
-	r := &runner{env: env, s: s, nAddr: nAddr, mode: mode, thashes: []common.Hash{{}}}
+	r := &runner{env: env, s: s, nAddr: nAddr, observe: observe, thashes: []common.Hash{{}}}
 	for _, o := range ini.prefix {
 		if !r.apply(o) {
 			return nil, fmt.Errorf("init prefix op %v not applicable", o)
@@ -524,8 +580,11 @@ func (r *runner) precond(o op) bool {
 	case opSubRefund:
 		return r.s.GetRefund() >= uint64(o.v)
 	case opCreate:
-		ch := r.s.GetCodeHash(a)
-		return r.s.GetNonce(a) == 0 && (ch == (common.Hash{}) || ch == c12aEmptyCodeHash)
+		if o.s == 0 { // evm.Call on a missing account
+			return !r.s.Exist(a) && (o.v > 0 || o.a == c12aRipemd)
+		}
+		ch := r.s.GetCodeHash(a) // evm.create collision check
+		return o.a != c12aRipemd && r.s.GetNonce(a) == 0 && (ch == (common.Hash{}) || ch == c12aEmptyCodeHash)
 	}
 	return true
 }
@@ -539,6 +598,10 @@ func (r *runner) apply(o op) bool {
 	switch o.k {
 	case opCreate:
 		s.CreateAccount(a)
+		if o.s == 1 {
+			s.SetNonce(a, 1)
+		}
+		s.AddBalance(a, big.NewInt(int64(o.v)))
 	case opAddBal:
 		s.AddBalance(a, big.NewInt(int64(o.v)))
 	case opSubBal:
@@ -582,11 +645,16 @@ func (r *runner) apply(o op) bool {
 		s.IntermediateRoot(true)
 		r.live = r.live[:0]
 	case opCommitReopen:
+		// block end as in the repository: ValidateState takes IntermediateRoot and the header
+		// records GetQuaiTrieSize() at that moment; then Commit; the next block opens a fresh
+		// StateDB at (root, recorded size).
+		s.IntermediateRoot(true)
+		size := new(big.Int).Set(s.GetQuaiTrieSize())
 		root, err := s.Commit(true)
 		if err != nil {
 			panic(fmt.Sprintf("HARNESS: Commit failed: %v", err))
 		}
-		ns, err := state.New(root, types.EmptyRootHash, new(big.Int).Set(s.GetQuaiTrieSize()), r.env.db, r.env.db, nil, c12aLoc, r.env.logger)
+		ns, err := state.New(root, types.EmptyRootHash, size, r.env.db, r.env.db, nil, c12aLoc, r.env.logger)
 		if err != nil {
 			panic(fmt.Sprintf("HARNESS: reopen at %x failed: %v", root, err))
 		}
@@ -604,11 +672,9 @@ func (r *runner) step(i int, o op, seq []op) (ok bool, viol *violationInfo) {
 	switch o.k {
 	case opSnapshot:
 		rec := snapRec{at: i}
-		switch r.mode {
-		case obsFull:
-			rec.before = takeDump(r.s, r.nAddr, r.thashes, true)
-		case obsCopy:
-			rec.before = takeDump(r.s, r.nAddr, r.thashes, false)
+		if r.observe {
+			d := readDump(r.s, r.nAddr, r.thashes)
+			rec.before = &d
 		}
 		rec.id = r.s.Snapshot()
 		r.live = append(r.live, rec)
@@ -620,18 +686,16 @@ func (r *runner) step(i int, o op, seq []op) (ok bool, viol *violationInfo) {
 			r.excluded = true
 			return false, nil
 		}
-		if r.mode == obsFull {
-			now := readDump(r.s, r.nAddr, r.thashes)
-			if now != rec.before.Direct {
+		if r.observe {
+			if now := readDump(r.s, r.nAddr, r.thashes); now != *rec.before {
 				r.effective = true
 			}
 		}
 		r.s.RevertToSnapshot(rec.id)
 		r.live = r.live[:idx]
-		if rec.before != nil {
-			after := takeDump(r.s, r.nAddr, r.thashes, rec.before.HasDirect)
-			if !sameFull(rec.before, after) {
-				return true, r.mkViolation("revert", seq, rec.at, i, rec.before, after)
+		if r.observe {
+			if after := readDump(r.s, r.nAddr, r.thashes); after != *rec.before {
+				return true, mkViolation("revert", seq, rec.at, i, diffDirect(r.nAddr, rec.before, &after))
 			}
 		}
 		return true, nil
@@ -674,8 +738,7 @@ func crossedKinds(seq []op, from, to, addr int) []string {
 	return out
 }
 
-func (r *runner) mkViolation(oracle string, seq []op, from, to int, before, after *fullDump) *violationInfo {
-	diffs := diffFull(r.nAddr, before, after)
+func mkViolation(oracle string, seq []op, from, to int, diffs []fieldDiff) *violationInfo {
 	v := &violationInfo{diffs: diffs}
 	kind, name := "unknown", "?"
 	if len(diffs) > 0 {
@@ -726,83 +789,189 @@ type caseResult struct {
 	excluded  bool // the history reverts across the known finding and was not executed further
 }
 
-// runCase executes a history with both oracles. A panic inside the repository code while running
-// a history that respects the caller contract is itself reported as a violation by the callers.
-func runCase(env *c12aEnv, ini *initState, nAddr int, mode obsMode, exclude bool, seq []op, spans []span, shadow []op) (res caseResult) {
-	res.invalidAt = -1
-	defer func() {
-		if p := recover(); p != nil {
-			msg := fmt.Sprint(p)
-			if strings.HasPrefix(msg, "HARNESS:") {
-				panic(p)
-			}
-			first := msg
-			if i := strings.IndexAny(first, "\n:("); i > 0 {
-				first = first[:i]
-			}
-			res.viol = &violationInfo{fp: "C12/A/panic/" + strings.TrimSpace(first), msg: "panic inside the repository while executing a contract-respecting history: " + msg}
-		}
-	}()
-	main, err := newRunner(env, ini, nAddr, mode)
+// commitOf executes a history without any intermediate observation on a fresh StateDB and ends
+// it with takeCommit. bad = index of the first op whose precondition failed (-1 = none).
+func commitOf(env *c12aEnv, ini *initState, nAddr int, seq []op, persist, exclude bool) (c *commitD, bad int, excluded bool) {
+	r, err := newRunner(env, ini, nAddr, false)
 	if err != nil {
 		panic("HARNESS: " + err.Error())
 	}
-	main.exclude = exclude
+	r.exclude = exclude
 	for i, o := range seq {
-		ok, viol := main.step(i, o, seq)
-		if !ok {
-			if main.excluded {
-				res.excluded = true
-				return res
+		if ok, _ := r.step(i, o, seq); !ok {
+			return nil, i, r.excluded
+		}
+	}
+	return takeCommit(env, r.s, nAddr, r.thashes, persist), -1, false
+}
+
+// shadowOracle compares the commitment of a history with the commitment of the history without
+// its reverted spans.
+func shadowOracle(env *c12aEnv, ini *initState, nAddr int, seq []op, spans []span, shadow []op, persist bool, memo map[string]*commitD, exclude bool) (viol *violationInfo, bad int, excluded bool) {
+	cm, bad, excluded := commitOf(env, ini, nAddr, seq, persist, exclude)
+	if bad >= 0 {
+		return nil, bad, excluded
+	}
+	var cs *commitD
+	key := ""
+	if memo != nil {
+		key = ini.name + "|" + strings.Join(opsStrings(shadow), ";")
+		cs = memo[key]
+	}
+	if cs == nil {
+		cs, bad, _ = commitOf(env, ini, nAddr, shadow, persist, false)
+		if memo != nil && bad < 0 {
+			if len(memo) > 400000 {
+				clear(memo)
 			}
-			res.invalidAt = i
-			return res
-		}
-		if viol != nil {
-			res.viol = viol
-			return res
+			memo[key] = cs
 		}
 	}
-	res.effective = main.effective
-	if err := main.s.Error(); err != nil {
-		res.viol = &violationInfo{fp: "C12/A/dberr", msg: "StateDB.Error() set by a contract-respecting history: " + err.Error()}
-		return res
+	if bad >= 0 {
+		return &violationInfo{fp: "C12/A/shadow/precondition/x=" + opKindName[shadow[bad].k],
+			msg: fmt.Sprintf("op %q was applicable in the history with reverted spans but not in the history without them (shadow op %d)", shadow[bad].String(), bad)}, -1, false
 	}
-	// shadow oracle
-	sh, err := newRunner(env, ini, nAddr, obsNone)
-	if err != nil {
-		panic("HARNESS: " + err.Error())
-	}
-	for i, o := range shadow {
-		ok, _ := sh.step(i, o, shadow)
-		if !ok {
-			res.viol = &violationInfo{fp: "C12/A/shadow/precondition/x=" + opKindName[o.k],
-				msg: fmt.Sprintf("op %q was applicable in the history with reverted spans but not in the history without them (shadow op %d)", o.String(), i)}
-			return res
-		}
-	}
-	fm := takeDump(main.s, nAddr, main.thashes, true)
-	fs := takeDump(sh.s, nAddr, sh.thashes, true)
-	if !sameFull(fs, fm) {
+	if *cs != *cm {
 		from, to := -1, -1
 		if len(spans) > 0 {
 			from, to = spans[0].from, spans[len(spans)-1].to
 		}
-		res.viol = main.mkViolation("shadow", seq, from, to, fs, fm)
+		return mkViolation("shadow", seq, from, to, diffCommit(nAddr, cs, cm)), -1, false
+	}
+	return nil, -1, false
+}
+
+func recoverRepoPanic(viol **violationInfo) {
+	if p := recover(); p != nil {
+		msg := fmt.Sprint(p)
+		if strings.HasPrefix(msg, "HARNESS:") {
+			panic(p)
+		}
+		first := msg
+		if i := strings.IndexAny(first, "\n:("); i > 0 {
+			first = first[:i]
+		}
+		*viol = &violationInfo{fp: "C12/A/panic/" + strings.TrimSpace(first), msg: "panic inside the repository while executing a contract-respecting history: " + msg}
+	}
+}
+
+// runCase executes a history up to three times: observed (revert oracle at every
+// RevertToSnapshot; skipped when observe is false), unobserved + commitment, and the shadow
+// history + commitment (shadow oracle). A panic inside the repository while running a
+// contract-respecting history is reported as a violation.
+func runCase(env *c12aEnv, ini *initState, nAddr int, exclude bool, seq []op, spans []span, shadow []op, persist bool, memo map[string]*commitD, observe bool) (res caseResult) {
+	res.invalidAt = -1
+	defer recoverRepoPanic(&res.viol)
+	if observe {
+		main, err := newRunner(env, ini, nAddr, true)
+		if err != nil {
+			panic("HARNESS: " + err.Error())
+		}
+		main.exclude = exclude
+		for i, o := range seq {
+			ok, viol := main.step(i, o, seq)
+			if !ok {
+				if main.excluded {
+					res.excluded = true
+					return res
+				}
+				res.invalidAt = i
+				return res
+			}
+			if viol != nil {
+				res.viol = viol
+				return res
+			}
+		}
+		res.effective = main.effective
+		if err := main.s.Error(); err != nil {
+			res.viol = &violationInfo{fp: "C12/A/dberr", msg: "StateDB.Error() set by a contract-respecting history: " + err.Error()}
+			return res
+		}
+	}
+	viol, bad, excluded := shadowOracle(env, ini, nAddr, seq, spans, shadow, persist, memo, exclude)
+	switch {
+	case excluded:
+		res.excluded = true
+	case bad >= 0 && observe:
+		panic(fmt.Sprintf("HARNESS: history valid when observed but op %d (%v) not applicable unobserved: %v", bad, seq[bad], opsStrings(seq)))
+	case bad >= 0:
+		res.invalidAt = bad
+	default:
+		res.viol = viol
 	}
 	return res
 }
 
+// validStruct checks the state-independent part of the caller contract for a whole history.
+func validStruct(seq []op, maxDepth int) bool {
+	live, rooted := 0, false
+	for _, o := range seq {
+		if !structOK(o, live, rooted, maxDepth) {
+			return false
+		}
+		live, rooted = nextLive(o, live), nextRooted(o, rooted)
+	}
+	return true
+}
+
+// minimise greedily deletes single ops and pairs of ops from a violating history while the same
+// fingerprint keeps being reported; used only to make the replay dump readable.
+func minimise(env *c12aEnv, ini *initState, nAddr int, seq []op, fp string) []op {
+	fails := func(c []op) bool {
+		if !validStruct(c, 1<<30) {
+			return false
+		}
+		sp, sh := analyse(c)
+		res := runCase(env, ini, nAddr, false, c, sp, sh, true, nil, true)
+		return res.invalidAt < 0 && res.viol != nil && res.viol.fp == fp
+	}
+	cur := append([]op(nil), seq...)
+	if !fails(cur) {
+		return nil
+	}
+	for changed := true; changed; {
+		changed = false
+		for i := 0; i < len(cur); i++ {
+			c := append(append([]op(nil), cur[:i]...), cur[i+1:]...)
+			if fails(c) {
+				cur, changed = c, true
+				i--
+			}
+		}
+		for i := 0; i < len(cur) && !changed; i++ {
+			for j := i + 1; j < len(cur); j++ {
+				c := append([]op(nil), cur[:i]...)
+				c = append(c, cur[i+1:j]...)
+				c = append(c, cur[j+1:]...)
+				if fails(c) {
+					cur, changed = c, true
+					break
+				}
+			}
+		}
+	}
+	return cur
+}
+
 // reportViolation funnels an oracle failure into stats.Violation.
-func reportViolation(t stats.TB, part string, ini *initState, mode obsMode, seq, shadow []op, v *violationInfo) bool {
+func reportViolation(t stats.TB, part string, ini *initState, seq, shadow []op, v *violationInfo) bool {
 	diffs := make([]string, len(v.diffs))
 	for i, d := range v.diffs {
 		diffs[i] = fmt.Sprintf("%s: %s -> %s", d.name, d.before, d.after)
 	}
-	return stats.Violation(t, part, v.fp, v.msg+" | init="+ini.name+" ops="+strings.Join(opsStrings(seq), "; "), map[string]any{
-		"init": ini.name, "init_prefix": opsStrings(ini.prefix), "observe": obsModeName[mode],
+	dump := map[string]any{
+		"init": ini.name, "init_prefix": opsStrings(ini.prefix),
 		"ops": opsStrings(seq), "shadow_ops": opsStrings(shadow), "diff": diffs,
-	})
+	}
+	msg := v.msg + " | init=" + ini.name + " ops=" + strings.Join(opsStrings(seq), "; ")
+	if env := c12aTheEnv; env != nil && len(seq) > 4 && !stats.IsKnown(v.fp) {
+		if m := minimise(env, ini, c12aNAddr, seq, v.fp); m != nil && len(m) < len(seq) {
+			dump["minimised_ops"] = opsStrings(m)
+			msg += " | minimised=" + strings.Join(opsStrings(m), "; ")
+		}
+	}
+	return stats.Violation(t, part, v.fp, msg, dump)
 }
 
 // ---- known finding: suicide zeroes the storage-size counter outside the journal ---------------
@@ -819,8 +988,8 @@ func (r *runner) poisonedSuicide(o op) bool {
 }
 
 // labelsFor computes the label set and signature of an executed history.
-func labelsFor(ini *initState, mode obsMode, seq []op, spans []span) (sig string, nontrivial bool, labels []string) {
-	labels = append(labels, "init:"+ini.name, "obs:"+obsModeName[mode])
+func labelsFor(ini *initState, seq []op, spans []span) (sig string, nontrivial bool, labels []string) {
+	labels = append(labels, "init:"+ini.name)
 	crossed := map[opKind]bool{}
 	var inside []string
 	for _, sp := range spans {
@@ -837,7 +1006,7 @@ func labelsFor(ini *initState, mode obsMode, seq []op, spans []span) (sig string
 	for k := range crossed {
 		labels = append(labels, "x:"+opKindName[k])
 	}
-	sort.Strings(labels[2:])
+	sort.Strings(labels[1:])
 	boundaryBefore, afterRevert, nested := false, false, false
 	seenBoundary := false
 	lastRevert := -1
